@@ -1939,6 +1939,16 @@ def short_fn_name(path):
     return "::".join(parts[-2:])
 
 
+_REF_TRANSPARENT = {
+    ("std::ops::Deref", "deref"),
+    ("std::ops::DerefMut", "deref_mut"),
+    ("std::borrow::Borrow", "borrow"),
+    ("std::borrow::BorrowMut", "borrow_mut"),
+    ("std::convert::AsRef", "as_ref"),
+    ("std::convert::AsMut", "as_mut"),
+}
+
+
 def root_local(body, op, depth=0):
     """follow `&`, reborrows and plain copies from an operand back to the user-level local"""
     if op["k"] not in ("copy", "move"):
@@ -1950,6 +1960,13 @@ def root_local(body, op, depth=0):
     if depth > 8:
         return l
     ds = [d for d in body.defs.get(l, []) if not d[2]]
+    if len(ds) == 1 and ds[0][1] == "term":
+        t = body.blocks[ds[0][0]]["term"]
+        f = t["func"]
+        if ((f.get("trait"), f.get("method")) in _REF_TRANSPARENT or (callee_key(f) or "").split("::")[-1] in ("as_slice", "as_mut_slice", "as_str", "as_ref", "as_mut")) and len(t["args"]) == 1:
+            inner = root_local(body, t["args"][0], depth + 1)
+            if inner is not None:
+                return inner
     if len(ds) == 1 and ds[0][1] != "term":
         rv = body.blocks[ds[0][0]]["stmts"][ds[0][1]]["rv"]
         if rv["k"] in ("ref", "rawptr") and not any(e["k"] != "deref" for e in rv["place"]["p"]):
